@@ -783,6 +783,8 @@ class Evaluator(CallMixin, StmtMixin):
     def get_item(self, base: Any, idx: Any, node: ast.AST) -> Any:
         if isinstance(idx, SStr) and idx.is_const():
             idx = idx.const()
+        if isinstance(base, SOpaque) and "match_text" in base.__dict__ and idx == 0 and not isinstance(idx, bool):
+            return base.__dict__["match_text"]        # m[0]
         if isinstance(base, (list, tuple, str, dict)) and not isinstance(idx, Sym):
             try:
                 return base[idx]
